@@ -11,6 +11,7 @@ import (
 
 	"github.com/gauss-project/aurorafs/pkg/boson"
 	"github.com/gauss-project/aurorafs/pkg/localstore"
+	"github.com/gauss-project/aurorafs/pkg/sctx"
 	"github.com/gauss-project/aurorafs/pkg/storage"
 	"verifharness/hx"
 )
@@ -30,10 +31,11 @@ type FileSpec struct {
 
 // Op is one high-level operation on the node.
 type Op struct {
-	K         string `json:"k"` // upload upchunk fetchpyr fetch read pin unpin delete gc transfer offline online
+	K         string `json:"k"` // upload upchunk fetchpyr fetch read pin unpin pinset unpinset putpin delete gc transfer offline online
 	F         int    `json:"f"`
 	Pin       bool   `json:"pin,omitempty"`
-	Leaves    []int  `json:"leaves,omitempty"` // fetch: indexes into the file's chunk set
+	Leaves    []int  `json:"leaves,omitempty"` // fetch / pinset / unpinset / putpin: indexes into the file's chunk set (pinset etc.: empty = every chunk)
+	NoCtx     bool   `json:"noctx,omitempty"`  // pinset / unpinset: no file context in the call
 	L         int    `json:"l,omitempty"`      // upchunk: index into the file's chunk set
 	BatchSize uint64 `json:"batchsize,omitempty"`
 	Inner     []Op   `json:"inner,omitempty"` // gc: executed between candidate selection and eviction
@@ -113,6 +115,10 @@ type Runner struct {
 	Run    *hx.Run
 	Orc    Oracle
 	Uploaded map[string]bool // addresses stored by a local upload call (Put in an upload mode that stored the chunk)
+	// bookkeeping of the oracles, from the recorded calls (not from the model):
+	CachedUnder map[string]map[string]bool // root -> chunks stored by a request-mode put under that file context
+	CtxPins     map[string]map[string]int  // root -> chunk -> pins made minus unpins made under that file context
+	Inflated    map[string]bool            // root -> an unpin under its context hit a chunk with no pin made under it
 
 	prev     localstore.VerifDump
 	prevCI   string
@@ -133,7 +139,8 @@ func NewRunner(h *Hist, run *hx.Run) (*Runner, error) {
 		return nil, err
 	}
 	R.W.Quiet = true
-	r := &Runner{H: h, R: R, Run: run, idx: map[string]int{}, Uploaded: map[string]bool{}, prevRoots: map[string]bool{}, prevCI: "(CiNow RE RE)"}
+	r := &Runner{H: h, R: R, Run: run, idx: map[string]int{}, Uploaded: map[string]bool{}, prevRoots: map[string]bool{}, prevCI: "(CiNow RE RE)",
+		CachedUnder: map[string]map[string]bool{}, CtxPins: map[string]map[string]int{}, Inflated: map[string]bool{}}
 	for _, fs := range h.Files {
 		fi := FileInfo{Spec: fs, Content: fs.Content()}
 		inner, _, err := R.UploadBytes(fi.Content, false)
@@ -399,9 +406,86 @@ func (r *Runner) emit(cop, cobs string, cur localstore.VerifDump, running bool, 
 	r.Steps = append(r.Steps, fmt.Sprintf("(%s) (%s) %s %s", cop, cobs, r.coqDiff(r.prev, cur, running, dirty), c))
 	r.prev = cur
 	r.NSteps++
+	r.prune(cur)
+}
+
+// prune forgets the per-context bookkeeping of chunks that are no longer stored.
+func (r *Runner) prune(d localstore.VerifDump) {
+	have := map[string]bool{}
+	for _, e := range d.Data {
+		have[string(e.Address)] = true
+	}
+	for _, m := range r.CachedUnder {
+		for a := range m {
+			if !have[a] {
+				delete(m, a)
+			}
+		}
+	}
+	for _, m := range r.CtxPins {
+		for a := range m {
+			if !have[a] {
+				delete(m, a)
+			}
+		}
+	}
+}
+
+// track updates the per-context bookkeeping from one recorded call.
+func (r *Runner) track(c Call) {
+	if c.Err != 0 || c.Root == nil {
+		return
+	}
+	root := string(c.Root)
+	if r.CachedUnder[root] == nil {
+		r.CachedUnder[root] = map[string]bool{}
+	}
+	if r.CtxPins[root] == nil {
+		r.CtxPins[root] = map[string]int{}
+	}
+	seen := map[string]bool{}
+	switch c.K {
+	case "put":
+		for i, a := range c.Addrs {
+			as := string(a)
+			if seen[as] {
+				continue
+			}
+			seen[as] = true
+			stored := i < len(c.Exist) && !c.Exist[i]
+			switch storage.ModePut(c.Mode) {
+			case storage.ModePutRequest:
+				if stored {
+					r.CachedUnder[root][as] = true
+				}
+			case storage.ModePutRequestPin:
+				if stored {
+					r.CachedUnder[root][as] = true
+					r.CtxPins[root][as]++
+				}
+			case storage.ModePutUploadPin:
+				r.CtxPins[root][as]++
+			}
+		}
+	case "set":
+		for _, a := range c.Addrs {
+			as := string(a)
+			switch storage.ModeSet(c.Mode) {
+			case storage.ModeSetPin:
+				r.CtxPins[root][as]++
+			case storage.ModeSetUnpin:
+				if r.CtxPins[root][as] > 0 {
+					r.CtxPins[root][as]--
+				} else {
+					r.Inflated[root] = true
+				}
+			}
+		}
+	}
 }
 
 func (r *Runner) emitCall(c Call) {
+	r.track(c)
 	running, dirty := c.Running, c.Dirty
 	switch c.K {
 	case "put":
@@ -479,6 +563,26 @@ func (r *Runner) file(i int) *FileInfo {
 	return &r.Files[i]
 }
 
+// pick: the chunks of the file at the given indexes of its chunk set (none given: every chunk, distinct)
+func (r *Runner) pick(f *FileInfo, idx []int) []boson.Address {
+	var out []boson.Address
+	if len(idx) == 0 {
+		for _, c := range f.Set {
+			out = append(out, boson.NewAddress(c))
+		}
+		return out
+	}
+	seen := map[int]bool{}
+	for _, i := range idx {
+		i = i % len(f.Set)
+		if !seen[i] {
+			seen[i] = true
+			out = append(out, boson.NewAddress(f.Set[i]))
+		}
+	}
+	return out
+}
+
 func (r *Runner) Exec(op Op, inner bool) {
 	f := r.file(op.F)
 	r.Run.Hist("op." + op.K)
@@ -524,6 +628,26 @@ func (r *Runner) Exec(op Op, inner bool) {
 		r.flush()
 	case "unpin":
 		r.S.UnpinRoot(f.Root)
+		r.flush()
+	case "pinset", "unpinset":
+		// ONE Set call with several addresses (chunks of the file), under the file context unless NoCtx
+		mode := storage.ModeSetPin
+		if op.K == "unpinset" {
+			mode = storage.ModeSetUnpin
+		}
+		ctx := context.Background()
+		if !op.NoCtx {
+			ctx = sctx.SetRootHash(ctx, f.Root)
+		}
+		_ = r.S.NS.Set(ctx, mode, r.pick(f, op.Leaves)...)
+		r.flush()
+	case "putpin":
+		// ONE Put call in ModePutRequestPin with several chunks of the file, under the file context
+		var chs []boson.Chunk
+		for _, a := range r.pick(f, op.Leaves) {
+			chs = append(chs, boson.NewChunk(a, r.S.Remote[a.ByteString()]))
+		}
+		_, _ = r.S.NS.Put(sctx.SetRootHash(context.Background(), f.Root), storage.ModePutRequestPin, chs...)
 		r.flush()
 	case "transfer":
 		_ = r.S.CI.OnChunkTransferred(boson.NewAddress(f.Leaves[0]), f.Root, r.S.Peer, r.S.Self)
